@@ -188,10 +188,16 @@ func HConstruct(n int, which int) {
 		pre, term, st = "<a b='", "'", 12
 	case 8:
 		pre, term, st = "<a b=`", "`", 13
+	case 9: // tokenizer started inside a double-quoted value (offset 0: nothing to skip)
+		pre, term, st = "", "\"", 11
+	case 10:
+		pre, term, st = "", "'", 12
+	case 11:
+		pre, term, st = "", "`", 13
 	}
 	s := pre + body
 	p := len(pre)
-	if st >= 11 && st <= 13 {
+	if st >= 11 && st <= 13 && p > 0 {
 		p-- // quoted value states are entered at the opening quote
 	}
 	h := &h5State{s: s, len: len(s), pos: p}
@@ -231,13 +237,13 @@ func HConstruct(n int, which int) {
 
 // HOpener: the whole classifier on a fixed opener followed by n free bytes (T layer; covers the opener logic).
 func HOpener(n int, which int, ctx int) {
-	pre := [...]string{"<![CDATA[", "<!--", "<%", "<?", "<!", "<!doctype", "</", "<a ", "<a b=", "<a b='", "<a b=\"", "<a b=`", "&#", "&#x", "<a href=&#", "<a/", "<a b=c/"}[which]
+	pre := [...]string{"<![CDATA[", "<!--", "<%", "<?", "<!", "<!doctype", "</", "<a ", "<a b=", "<a b='", "<a b=\"", "<a b=`", "&#", "&#x", "<a href=&#", "<a/", "<a b=c/", "<a href=&#x", "<a href=\"&#x6", "<a style=", "<a attributename=", "<!--[if", "<?xml", "<!entity", "<a href=  java"}[which]
 	s := pre + vNondetString(n)
 	ok := isXSS(s, ctx)
 	vObserveBool("verdict", ok)
 }
 
-const vNumOpeners = 17
+const vNumOpeners = 25
 
 // HConstructAPI: same first-terminator property, observed through the tokenizer started in the data state on
 // opener+body (so the opener recognition is included), for the constructs reachable from data state.
